@@ -89,6 +89,8 @@ def applies(sc, r):
         return k.startswith("rt_")
     if sc == 5:
         return k.startswith("mut_")
+    if sc == 8:
+        return k == "val_plan"
     return k == "rev"
 
 
@@ -139,6 +141,8 @@ def replay(path):
     doc = {}
     if k == "rev":
         doc = {"models_now": inp["models_now"], "history": inp.get("history") or []}
+        if inp.get("supplied_fill_with"):
+            doc["supply"] = inp["supplied_fill_with"]
     elif k.startswith("rt_") and inp.get("text"):
         key = {"rt_table": "table", "rt_plan": "plan", "rt_config": "config"}[k]
         if inp.get("yaml") and k == "rt_table":
